@@ -115,13 +115,15 @@ def query(p, dt_ns: int, budget_s: int = 1):
         return _query(p, dt_ns, budget_s)
     except Budget:
         # the alarm went off while the timer was being disarmed (after the answer had been computed): a budget overrun
-        signal.setitimer(signal.ITIMER_REAL, 0)
+        signal.setitimer(signal.ITIMER_VIRTUAL, 0)
         return ['budget']
 
 
 def _query(p, dt_ns: int, budget_s: int = 1):
-    signal.signal(signal.SIGALRM, _alarm)
-    signal.setitimer(signal.ITIMER_REAL, budget_s)
+    # CPU seconds of this process (ITIMER_VIRTUAL), not wall-clock seconds: a loaded machine must not turn answers into
+    # budget overruns
+    signal.signal(signal.SIGVTALRM, _alarm)
+    signal.setitimer(signal.ITIMER_VIRTUAL, budget_s)
     try:
         r = p.get_next(Instant.from_timestamp_nanos(dt_ns))
         return ['ok', r.timestamp_nanos()]
@@ -140,7 +142,7 @@ def _query(p, dt_ns: int, budget_s: int = 1):
     except Exception:  # noqa: BLE001
         return ['raise', 'EOther']
     finally:
-        signal.setitimer(signal.ITIMER_REAL, 0)
+        signal.setitimer(signal.ITIMER_VIRTUAL, 0)
 
 
 
